@@ -7,7 +7,7 @@
 (* PbExpressible - the harness never decides what a format can express.                                           *)
 EXTENDS Codec, Json, Randomization, SequencesExt
 
-CONSTANTS Component,      \* "lanelet" | "sign" | "light" | "intersection" | "obstacle" | "planning" | "header" | "numbers" | "mixed" | "mixedx" | "small" (= planning .. header in one run)
+CONSTANTS Component,      \* "lanelet" | "sign" | "light" | "intersection" | "obstacle" | "planning" | "header" | "numbers" | "reuse" | "mixed" | "mixedx" | "small" (= planning .. header in one run)
           Precisions,     \* decimal precisions of the numbers component, e.g. {1, 4, 8, 12}
           NMixed,         \* number of random mixed cases
           NShards,        \* the cases are the successors of NShards seed states, so that TLC's workers share the laws
@@ -287,7 +287,12 @@ NumSign == {Sign(21, <<SignEl(SignIdT[1], <<"50">>)>>, XYp(t, t), 0, <<>>) : t \
 NumLight == {Light(31, <<Cyc("RED", 2)>>, 0, XYp(t, t), "ALL", 1) : t \in AnyTok}
 
 (* ------------------------------ cases ------------------------------------------------------------------------------ *)
-Case(comp, d, desc) == [comp |-> comp, d |-> d, desc |-> desc]
+Case(comp, d, desc) == [comp |-> comp, d |-> d, desc |-> desc, reuse |-> <<>>]
+Ru(edit, w2) == <<[edit |-> edit, w2 |-> w2]>>
+CaseR(comp, d, desc, ru) == [comp |-> comp, d |-> d, desc |-> desc, reuse |-> IF ReuseOK(desc, ru) THEN ru ELSE <<>>]
+(* one case in three of the mixed draws reuses its writer: a random edit, second write full or scenario-only *)
+RandomReuse == LET k == RandomElement(1..30) IN
+               IF k > 10 THEN <<>> ELSE Ru(EditTokens[((k - 1) % Len(EditTokens)) + 1], IF k <= 5 THEN "full" ELSE "scenario")
 WithL1Refs(sr, lr) == [DefLanelet(1) EXCEPT !.signs = sr, !.lights = lr]
 SignsOf(la) == SortIds(Range(la.signs) \cup UNION {Range(s.sref) : s \in Range(la.stop)})
 LightsOf(la) == SortIds(Range(la.lights) \cup UNION {Range(s.lref) : s \in Range(la.stop)})
@@ -329,6 +334,10 @@ MixedDesc(i) ==
                       ReId(RandomElement(OkObst), 53), ReId(RandomElement(OkObstByRole["dynamic"]), 54)>>,
       pps |-> <<RandomElement(OkPP), ReId(RandomElement(OkPP), 92)>>]
 
+RichWorld(o) == World(DefHdr, LanDef("SOLID", "DASHED", Adj(2, 1), <<>>, <<Stop("SOLID", <<21>>, <<31>>, 0, 0)>>, <<"URBAN">>, <<"CAR">>, <<>>, <<21>>, <<31>>),
+                      <<DefSign(21)>>, <<DefLight(31)>>, <<Inter(41, <<Inc(45, <<1>>, <<2>>, <<>>, <<>>, 0)>>, <<3>>, 0)>>, <<o>>, <<DefPP(91)>>)
+RichObstacles == {Sta("PARKED_VEHICLE", DefRect, InitFull, <<>>, <<>>, 1), Dyn("CAR", DefRect, InitFull, <<>>, <<>>, 1, DefTraj),
+                  Pha(SetOf(<<Occ(TE(1), DefRect)>>)), EnvO("BUILDING", DefRect)}
 BothRefs(la) == \E s \in Range(la.stop) : s.sref # <<>> /\ s.lref # <<>>
 Rotate(comp, pool, Embed(_)) == LET sq == SetToSeq(pool) IN
                                 {Case(comp, 4, Renumber(Embed(sq[i]), IdTokens[(i % Len(IdTokens)) + 1])) : i \in DOMAIN sq}
@@ -345,7 +354,11 @@ CasesOf(comp) ==
                                 \cup Rotate("intersection", {y \in InterPool : Len(y.incs) # 2}, EmbedInter)
     [] comp = "header"       -> {Case("header", 4, EmbedHdr(h)) : h \in HeaderPool}
     [] comp = "numbers"      -> {Case("numbers", d, desc) : d \in Precisions, desc \in NumDescs}
-    [] comp \in {"mixed", "mixedx"} -> {Case("mixed", RandomElement(Precisions), Renumber(MixedDesc(i), RandomElement(Range(IdTokens)))) : i \in 1..NMixed}   \* see ShardCases
+    [] comp \in {"mixed", "mixedx"} -> {CaseR("mixed", RandomElement(Precisions), Renumber(MixedDesc(i), RandomElement(Range(IdTokens))), RandomReuse) :
+                                          i \in 1..NMixed}   \* see ShardCases
+    \* writer reuse on a world that has every component: every edit x second write x obstacle role x id-order token
+    [] comp = "reuse"        -> {CaseR("reuse", 4, Renumber(RichWorld(o), tk), Ru(ed, w2)) :
+                                   o \in RichObstacles, tk \in Range(IdTokens), ed \in Range(EditTokens), w2 \in {"full", "scenario"}}
     \* small witnesses for the deviation configurations (DEV_Codec_*.cfg)
     [] comp = "dev_horn"     -> {Case("obstacle", 4, EmbedObst(Dyn("CAR", DefRect, InitFull, <<SigOf(TE(0), S, 1)>>, <<>>, 1, DefTraj))) :
                                    S \in {{"horn"}, {"horn", "braking_lights"}, {"braking_lights"}}}
@@ -359,7 +372,7 @@ Seed(k) == [comp |-> "seed", d |-> k, desc |-> <<>>]
 IsSeed == cs.comp = "seed"
 ShardCases(k) ==
   IF Component \in {"mixed", "mixedx"}
-  THEN {c \in {Case("mixed", RandomElement(Precisions), Renumber(MixedDesc(i), RandomElement(Range(IdTokens)))) :
+  THEN {c \in {CaseR("mixed", RandomElement(Precisions), Renumber(MixedDesc(i), RandomElement(Range(IdTokens))), RandomReuse) :
                  i \in {j \in 1..NMixed : j % NShards = k - 1}} : WellFormed(c.desc)}
   ELSE LET sq == SetToSeq({c \in Cases : WellFormed(c.desc)}) IN {sq[i] : i \in {j \in DOMAIN sq : j % NShards = k - 1}}
 Init == cs \in {Seed(k) : k \in 1..NShards}
@@ -423,12 +436,20 @@ LawImplConforms == IsSeed \/
                                    ELSE IF lv[i][4] = "rD" THEN <<lv[i][1], lv[i][2], lv[i][3], "re:other">> ELSE lv[i]]
     IN ((fmt = "xml" => XmlExpressible(D)) /\ (fmt = "pb" => PbExpressible(D))) => Diffs(fmt, Expected(fmt, D), pr) = {}
 
+(* the edited scenario of a writer-reuse case is again inside the quantifier, and its contract document is valid *)
+LawReuse == IsSeed \/ cs.reuse = <<>> \/
+  LET e == EditOf(D, cs.reuse) IN
+  /\ WellFormed(e) /\ (XmlExpressible(D) /\ XmlExpressible(e) => ContractDocValid(e))
+  /\ (cs.reuse[1].edit \in {"add_network", "add_pp", "light_offset", "remove_obstacle"} => Leaves(e) # Leaves(D))   \* the edit is visible
+
 (* contract and schema are mutually consistent: the document the contract demands is valid *)
 LawSchema == IsSeed \/ (XmlExpressible(D) => ContractDocValid(D))
 
 Emit == IsSeed \/
-  PrintT(<<"CASE", ToJson([comp |-> cs.comp, d |-> cs.d, desc |-> cs.desc,
-                                 xml |-> XmlExpressible(cs.desc), pb |-> PbExpressible(cs.desc), q |-> QuotaOK(cs.desc)])>>)
+  PrintT(<<"CASE", ToJson([comp |-> cs.comp, d |-> cs.d, desc |-> cs.desc, reuse |-> cs.reuse,
+                           edited |-> IF cs.reuse = <<>> THEN <<>> ELSE <<EditOf(cs.desc, cs.reuse)>>,      \* for the harness to apply
+                           xml |-> XmlExpressible(cs.desc) /\ XmlExpressible(EditOf(cs.desc, cs.reuse)),
+                           pb |-> PbExpressible(cs.desc) /\ PbExpressible(EditOf(cs.desc, cs.reuse)), q |-> QuotaOK(cs.desc)])>>)
 
 (* the tables of Codec.tla, printed once: the harness checks its value tables against them *)
 ASSUME PrintT(<<"TABLE", ToJson([enums |-> EnumTables, pbenums |-> [k \in DOMAIN PbEnums |-> SetToSeq(PbEnums[k])],
